@@ -315,4 +315,7 @@ def run(pid, tier, seed, replay):  # noqa: F811
     if pid in ("C16", "C17", "C19"):
         import cliprops
         return {"C16": cliprops.run_c16, "C17": cliprops.run_c17, "C19": cliprops.run_c19}[pid](tier, seed, replay)
+    if pid == "C11":
+        import lawprops
+        return lawprops.run_c11(tier, seed, replay)
     return _run3(pid, tier, seed, replay)
